@@ -253,6 +253,52 @@ func H_C07_tounicode_wide_codes() {
 	vReach("end")
 }
 
+// H_C07_bfrange_array_and_offset_forms: a bfrange section may mix array targets and offset targets; each entry keeps its
+// own meaning - array element i for code lo+i, offset targets incremented in their last code unit - also when an offset
+// target is a surrogate pair or a multi-character string.
+//
+//symgo:harness prop=C07 kernel=K3-tounicode-bfrange-forms
+//symgo:redirect github.com/tsawler/tabula/font.NormalizeUnicode vIdentityNFC
+//symgo:desc one-byte code space; one bfrange section with three entries in an enumerated order: an array entry <10> <12> [<0041> <D83DDE00> <00660066>], an offset entry <20> <22> whose target is a surrogate pair with symbolic low digits, and an offset entry <30> <31> <0066 0069> (two characters); entries on separate lines or all on one line (enumerated); with or without a preceding array-free bfrange section (enumerated): every code of every range decodes to its specified text
+func H_C07_bfrange_array_and_offset_forms() {
+	nl := "\n"
+	if vAnyIntIn(0, 1) == 1 {
+		nl = " "
+	}
+	var lo []byte
+	lo, lov := vHex(lo, "0123456789AB", hexAny) // low surrogate DC00 + lov, lov <= 0xBF so that +2 stays inside the unit's low byte range
+	entries := []string{
+		"<10> <12> [<0041> <D83DDE00> <00660066>]",
+		"<20> <22> <D83DDC" + string(lo) + ">",
+		"<30> <31> <00660069>",
+	}
+	order := []int{0, 1, 2}
+	for i := 0; i < 2; i++ {
+		j := vAnyIntIn(i, 2)
+		order[i], order[j] = order[j], order[i]
+	}
+	prog := "/CIDInit /ProcSet findresource begin 12 dict begin begincmap" + nl + "1 begincodespacerange" + nl + "<00> <FF>" + nl + "endcodespacerange" + nl
+	if vAnyIntIn(0, 1) == 1 {
+		prog += "1 beginbfrange" + nl + "<40> <42> <0061>" + nl + "endbfrange" + nl
+	}
+	prog += "3 beginbfrange" + nl
+	for _, k := range order {
+		prog += entries[k] + nl
+	}
+	prog += "endbfrange" + nl + "endcmap"
+	cm, err := ParseToUnicodeCMap(&core.Stream{Dict: core.Dict{}, Data: []byte(prog)})
+	vAssert("cmap-parses", err == nil && cm != nil)
+	f := NewFont("F1", "Helvetica", "Type1")
+	f.ToUnicodeCMap = cm
+	vAssert("array-targets", f.DecodeString([]byte{0x10, 0x11, 0x12}) == "A\U0001F600ff")
+	base := rune(0x10000 + (0x3D << 10) + rune(lov))
+	for k := 0; k < 3; k++ {
+		vAssert("offset-target-surrogate-pair", f.DecodeString([]byte{byte(0x20 + k)}) == string(utf8.AppendRune(nil, base+rune(k))))
+	}
+	vAssert("offset-target-two-characters", f.DecodeString([]byte{0x30, 0x31}) == "fifj")
+	vReach("end")
+}
+
 // H_C07_tounicode_precedence: a font with a ToUnicode CMap decodes by it even when the code string happens to start with
 // the bytes of a UTF-16 byte-order mark, and even when an Encoding is present.
 //
